@@ -27,7 +27,8 @@ func emitBoundReports(p *Program, r *Result, ba *boundAnalysis, rule string, sup
 		key := rule + " | " + fname + " | " + construct
 		if _, ok := suppress[key]; !ok && len(suppress) > 0 {
 			// the suppressed construct may have moved into an unexported helper of NextInto (same operation, same argument)
-			if ni := p.lookupFunc(pkgMcap, "indexedMessageIterator.NextInto"); ni != nil {
+			// - but never into the code that fills the slot: there the length is read for the first time and must be checked
+			if ni := p.lookupFunc(pkgMcap, "indexedMessageIterator.NextInto"); ni != nil && !fillsChunkSlot(p, sr.fn) {
 				for _, rf := range regionOf(p, ni, 3) {
 					if rf == sr.fn {
 						key = rule + " | mcap.indexedMessageIterator.NextInto | " + construct
@@ -341,3 +342,28 @@ func sortStrings(s []string) {
 }
 
 var _ = strings.HasPrefix
+
+// fillsChunkSlot: fn, or a function of its call region, stores into the buffer field of a chunk slot or is the
+// function that indexes a freshly loaded chunk (appends to the pending-message queue).
+func fillsChunkSlot(p *Program, fn *ssa.Function) bool {
+	for _, rf := range regionOf(p, fn, 3) {
+		for _, in := range instrsOf(rf) {
+			st, ok := in.(*ssa.Store)
+			if !ok {
+				continue
+			}
+			fa, ok := st.Addr.(*ssa.FieldAddr)
+			if !ok {
+				continue
+			}
+			nt, stt := structOf(fa.X.Type())
+			if nt == nil || stt == nil {
+				continue
+			}
+			if nt.Obj().Name() == "chunkSlot" && isByteSlice(stt.Field(fa.Field).Type()) {
+				return true
+			}
+		}
+	}
+	return false
+}
